@@ -13,6 +13,9 @@ claimed = {
  "C19": dict(cat="model_checking",
    text="For every result strconv.ParseFloat can return for the gpu-fraction annotation (symbolic IEEE double incl. NaN/Inf, or an error), and every byte string of length 1..3 (quick) / 1..5 plus all 19- and 20-digit decimal strings (thorough) for gpu-memory and gpu-fraction-num-devices pushed through the real ParseInt/ParseUint code, the solver decides that admission (GPUSharing.Validate), the binder validator and the scheduler's PodInfo construction agree: accepted => finite positive quantity, same request type, portion, memory and device count in the scheduler; sharing-disabled and malformed requests rejected. All presence combinations of the three annotations x whole-GPU limit x sharing switch. Bounded model checking is the right level: the inputs are scalars/strings and the code is loop-free or string-length bounded.",
    ref="DESIGN.md section 5 C19"),
+ "C12": dict(cat="model_checking",
+   text="Binder side of the hand-off, decided inductively: the real BindRequestReconciler.Reconcile (+UpdateStatus, updatePodCondition) is executed on an in-memory API store from an ARBITRARY stored status (phase, failedAttempts in [0,2^30), backoffLimit nil or any int32) with the bind failing or succeeding; the solver decides for all those values that the attempt count is persisted (+1 while below the limit), that the request is observably failed to the scheduler (real BindRequestInfo.IsFailed on the stored object) once the reconciler stops retrying, that a Succeeded request is a no-op; plus the k-step loop for limits 1..4 (quick)/1..8 (thorough): at most limit retries, terminates, ends IsFailed. One inductive step from every stored state covers retry histories of any length. Scheduler-side charging of pending BindRequests is covered by the C14/C01 harness family where built; true two-process interleavings are outside (shared store with atomic API calls, step of either side from every stored state).",
+   ref="DESIGN.md section 5 C12"),
 }
 
 na_reasons = {}
